@@ -118,16 +118,26 @@ theorem interleaved_eq_sequential_order (P : Params M T) (le : T → T → Prop)
 theorem ran_enumeration (P : Params M T) (cl : Nat → Nat) (presented : Nat → Option M) (priv : Nat → Bool) (c0 : Option M)
     (s : St M T) (h : Reachable P cl presented priv c0 s) :
     ∃ l : List Nat, l.Nodup ∧ ∀ t, t ∈ l ↔ (s.th t).pc ≠ .entry := by
-  obtain ⟨l0, hl0⟩ := finite_active P cl presented priv c0 s h
-  refine ⟨(l0.filter fun t => decide ((s.th t).pc ≠ .entry)).eraseDups, List.nodup_eraseDups _, fun t => ?_⟩
-  rw [List.mem_eraseDups, List.mem_filter]
-  constructor
-  · intro ⟨_, h2⟩; simpa using h2
-  · intro hne
-    refine ⟨?_, by simpa using hne⟩
-    by_cases ht : t ∈ l0
-    · exact ht
-    · exact absurd (hl0 t ht) hne
+  induction h with
+  | init => exact ⟨[], List.nodup_nil, fun t => by simp [init]⟩
+  | @step s s' t r _ hs ih =>
+    obtain ⟨l, hnd, hl⟩ := ih
+    have hne := step_pc_ne_entry P cl presented priv s s' t r hs
+    have hfr := step_th_frame P cl presented priv s s' t r hs
+    by_cases ht : t ∈ l
+    · refine ⟨l, hnd, fun t' => ?_⟩
+      by_cases e : t' = t
+      · subst e; exact ⟨fun _ => hne, fun _ => ht⟩
+      · rw [hfr t' e]; exact hl t'
+    · refine ⟨t :: l, List.nodup_cons.mpr ⟨ht, hnd⟩, fun t' => ?_⟩
+      by_cases e : t' = t
+      · subst e; exact ⟨fun _ => hne, fun _ => List.mem_cons_self ..⟩
+      · rw [hfr t' e, List.mem_cons]
+        constructor
+        · rintro (h1 | h1)
+          · exact absurd h1 e
+          · exact (hl t').mp h1
+        · intro h1; exact Or.inr ((hl t').mpr h1)
 
 end ModVerif.ClientLatest
 
@@ -186,9 +196,9 @@ theorem creach_head (P : ClientLatest.Params M T) (cl : Nat → Nat) (presented 
   | init => exact ClientLatest.HReachable.init
   | step _ hs ih =>
     cases hs with
-    | cache _ i c' fv _ _ => exact ih
-    | head _ i r l' _ hok hst => exact ClientLatest.HReachable.step i r ih hok hst
-    | ret _ i x c' _ _ _ => exact ih
+    | cache i c' fv _ _ => exact ih
+    | head i r l' _ hok hst => exact ClientLatest.HReachable.step i r ih hok hst
+    | ret i x c' _ _ _ => exact ih
 
 /-- with an honest server the cache component of a composed run is a run of the `parCache` machine in which every
 closure returns `work i ok` -/
@@ -200,11 +210,11 @@ theorem creach_cache (P : ClientLatest.Params M T) (le : T → T → Prop) (Ch :
   | init => exact ParCache.Reachable.init
   | @step s s' hr hs ih =>
     cases hs with
-    | cache _ i c' fv hne hst =>
+    | cache i c' fv hne hst =>
       refine ParCache.Reachable.step i ih ?_
       rw [step_congr_fval key _ fv s.c i (fun e => absurd e hne)]; exact hst
-    | head _ i r l' _ _ _ => exact ih
-    | ret _ i x c' hpc hx hst =>
+    | head i r l' _ _ _ => exact ih
+    | ret i x c' hpc hx hst =>
       have hxok : x = .ok := by
         have := (ClientLatest.honest_all_succeed_inv P le Ch cl presented (fun _ => false) c0 hH s.l
           (creach_head P cl presented key work c0 s hr)).2.2 i x hx
